@@ -648,6 +648,32 @@ def _small_procedure(fn: ast.AST) -> bool:
     return not _has_early_return(fn)
 
 
+def _fold_none_tests(stmts: list) -> list:
+    """After a default `param=None` was substituted: `if None is None: A else: B` is A (recursively)."""
+    out = []
+    for st in stmts:
+        if isinstance(st, ast.If):
+            t = st.test
+            val = None
+            if isinstance(t, ast.Compare) and len(t.ops) == 1 and isinstance(t.left, ast.Constant) and t.left.value is None \
+                    and isinstance(t.comparators[0], ast.Constant) and t.comparators[0].value is None and isinstance(t.ops[0], (ast.Is, ast.IsNot)):
+                val = isinstance(t.ops[0], ast.Is)
+            elif isinstance(t, ast.Constant) and isinstance(t.value, bool):
+                # a flag parameter bound to a literal at the (inlined) call site
+                val = t.value
+            elif isinstance(t, ast.UnaryOp) and isinstance(t.op, ast.Not) and isinstance(t.operand, ast.Constant) and isinstance(t.operand.value, bool):
+                val = not t.operand.value
+            if val is not None:
+                out.extend(_fold_none_tests(st.body if val else st.orelse))
+                continue
+            st.body = _fold_none_tests(st.body) or [ast.copy_location(ast.Pass(), st)]
+            st.orelse = _fold_none_tests(st.orelse)
+        elif isinstance(st, (ast.For, ast.While, ast.With)):
+            st.body = _fold_none_tests(st.body) or [ast.copy_location(ast.Pass(), st)]
+        out.append(st)
+    return out
+
+
 def _has_early_return(fn: ast.FunctionDef) -> bool:
     body = [s_ for s_ in fn.body if not (isinstance(s_, ast.Expr) and isinstance(s_.value, ast.Constant))]
     for i, s_ in enumerate(body):
@@ -747,6 +773,7 @@ def _inline_procedures(tree: ast.Module) -> None:
                     renames = {n_: tag + n_ for n_ in stores | {p_ for p_ in allp if p_ not in mapping}}
                     body = [copy.deepcopy(s_) for s_ in h.body if not (isinstance(s_, ast.Expr) and isinstance(s_.value, ast.Constant))]
                     body = [_Rename(mapping, renames).visit(s_) for s_ in body]
+                    body = _fold_none_tests(body)
                     out = pre + body
                     if form != "return" and _has_early_return(h):
                         # one-pass loop: `return E` -> `<target> = E; break`
@@ -824,6 +851,22 @@ def _inline_procedures(tree: ast.Module) -> None:
     for cls in [n for n in ast.walk(tree) if isinstance(n, ast.ClassDef)]:
         helpers = {n.name: n for n in cls.body if isinstance(n, ast.FunctionDef)}
         bases = [dotted(b) or "" for b in cls.bases]
+        attr_refs: dict[str, int] = {}
+        for x in ast.walk(cls):
+            if isinstance(x, ast.Attribute):
+                attr_refs[x.attr] = attr_refs.get(x.attr, 0) + 1
+        proc_like = set()
+        for k, h in helpers.items():
+            if not k.startswith("_") or k.startswith("__") or not (1 <= attr_refs.get(k, 0) <= 4) or not _proc_inlinable(h, False) or _has_early_return(h):
+                continue
+            if any(isinstance(x, ast.Return) and x.value is not None for x in ast.walk(h)):
+                continue
+            # every reference is a call written as a statement
+            calls_as_stmt = sum(1 for x in ast.walk(cls) if isinstance(x, ast.Expr) and isinstance(x.value, ast.Call) and isinstance(x.value.func, ast.Attribute) and x.value.func.attr == k)
+            if calls_as_stmt != attr_refs.get(k, 0):
+                continue
+            if sum(1 for s_ in h.body for x in ast.walk(s_) if isinstance(x, ast.stmt)) <= 12:
+                proc_like.add(k)
         for fn in [n for n in cls.body if isinstance(n, ast.FunctionDef)]:
             if (fn.name.startswith("__") and fn.name != "__post_init__") or not fn.args.args:
                 continue
@@ -838,13 +881,19 @@ def _inline_procedures(tree: ast.Module) -> None:
                 # the field canonicalisation of a dataclass: one unit however it is cut into private pieces
                 or fn.name == "__post_init__"
             )
+            use = helpers
             if not entry:
-                continue
+                # elsewhere: private procedures of the class (nothing returned, at most twelve statements) that are
+                # called as statements - a named piece of their callers, e.g. the row loop shared by two setters
+                use = {k: h for k, h in helpers.items() if k in proc_like and h is not fn}
+                # (not in optimizer plug-ins: their validation procedure is the unit the cache-protocol rules reason about)
+                if not use or any(b.endswith("Optimizer") for b in bases):
+                    continue
             if any(isinstance(d, ast.Name) and d.id in ("staticmethod", "classmethod", "property") for d in fn.decorator_list):
                 continue
             for _round in range(3):
                 before = ast.dump(fn)
-                expand(fn, helpers, fn.args.args[0].arg, 0)
+                expand(fn, use, fn.args.args[0].arg, 0)
                 if ast.dump(fn) == before:
                     break
                 inlined_any.add(cls.name)
@@ -859,7 +908,8 @@ def _inline_procedures(tree: ast.Module) -> None:
             name_refs[x.attr] = name_refs.get(x.attr, 0) + 1
     mod_helpers = {}
     for h in top:
-        if name_refs.get(h.name, 0) != 1 or not _proc_inlinable(h, False) or _has_early_return(h):
+        # one call site, or several (a parametrised piece shared by sibling callers): each call is replaced by the body
+        if not (1 <= name_refs.get(h.name, 0) <= 4) or not _proc_inlinable(h, False) or _has_early_return(h):
             continue
         if any(isinstance(x, ast.Return) and x.value is not None for x in ast.walk(h)):
             continue
